@@ -6,7 +6,7 @@ import sys
 
 HERE = os.path.dirname(os.path.abspath(__file__))
 
-if os.environ.get('PYTHONHASHSEED') != '0':
+if os.environ.get('PYTHONHASHSEED') != '0' and not os.environ.get('VERIF_NO_REEXEC'):
     os.environ['PYTHONHASHSEED'] = '0'
     os.environ.setdefault('DO_NOT_TRACK', 'true')
     os.environ.setdefault('LOG_PATH', 'false')
